@@ -103,6 +103,13 @@ def systems(quick, seed, dmax):
         names_sel = {s[0] for s in sel}
         sel += [s for s in out if s[0] in must and s[0] not in names_sel]
         out = sel
+    else:
+        # thorough: every block combination with two of its (conjugation, inhomogeneity) variants -- about 1 400 systems,
+        # sized to roughly 20 minutes on 16 cores (the full product is 5 786 systems)
+        byc = {}
+        for s in out:
+            byc.setdefault(s[0].split("/")[0], []).append(s)
+        out = [s for k in sorted(byc) for s in rnd.sample(byc[k], min(2, len(byc[k])))]
     res = []
     # second family: sparse triangular matrices (acyclic systems with delayed copies feeding accumulators, several levels)
     diag = ["0", "0", "1", "1", "2", "1/2", "-1", "3"]
